@@ -9,6 +9,7 @@ CONSTANTS
   MaxBurst = 1
   BurstReps = 10
   Opts = {}
+  Anns = {}
   Depth = 6
 INVARIANT Inv
 CONSTRAINT EmitAll
